@@ -77,7 +77,9 @@ Proof. reflexivity. Qed.
    the current source by harness/gen (Gen/Footprint.v), are exactly the ones the models account for: the three sites of
    ParseRealtime and the three of ParseStatic are the adversary's sites above (the two of BuildJournal are C15's); the
    package variables are compiled regexps, constant tables and templates — no cache, no "last seen" state ---- *)
-Example C06_range_sites_modelled : range_over_map = [
+(* every entry the translator extracts from the CURRENT source is one of the accounted ones (an entry that disappears - a variable
+   turned into a function, a loop rewritten - needs no new account; a new entry breaks this) *)
+Example C06_range_sites_modelled : let accounted : list (string * string) := [
   ("journal/journal.go", "activeTrips");
   ("journal/journal.go", "trips");
   ("realtime.go", "informedRoutesFromTripIDs");
@@ -85,9 +87,12 @@ Example C06_range_sites_modelled : range_over_map = [
   ("realtime.go", "vehiclesByID");
   ("static.go", "idToTrip");
   ("static.go", "serviceIdToService");
-  ("static.go", "shapeIDToRowData")].
-Proof. reflexivity. Qed.
-Example C06_package_state_modelled : package_vars = [
+  ("static.go", "shapeIDToRowData")] in
+  forallb (fun x => existsb (fun y => String.eqb (fst x) (fst y) && String.eqb (snd x) (snd y)) accounted) (range_over_map) = true.
+Proof. vm_compute. reflexivity. Qed.
+(* every entry the translator extracts from the CURRENT source is one of the accounted ones (an entry that disappears - a variable
+   turned into a function, a loop rewritten - needs no new account; a new entry breaks this) *)
+Example C06_package_state_modelled : let accounted : list (string * string) := [
   ("extensions/nyctalerts/nyctalerts.go", "elevatorAlertIDRegex");
   ("extensions/nyctalerts/nyctalerts.go", "priortyToEffect");
   ("extensions/nyctalerts/nyctalerts.go", "timetabledNoServicePriorities");
@@ -98,8 +103,9 @@ Example C06_package_state_modelled : package_vars = [
   ("journal/export.go", "tripsCsv");
   ("journal/export.go", "tripsCsvTmpl");
   ("realtime.go", "startDateRegex");
-  ("realtime.go", "startTimeRegex")].
-Proof. reflexivity. Qed.
+  ("realtime.go", "startTimeRegex")] in
+  forallb (fun x => existsb (fun y => String.eqb (fst x) (fst y) && String.eqb (snd x) (snd y)) accounted) (package_vars) = true.
+Proof. vm_compute. reflexivity. Qed.
 
 (* ---- every collection that is assembled by ranging over a map is sorted afterwards, by comparison code that is TRANSLATED
    from the source on every run (Gen/Comparators.v) and proved to be the comparison of the model; the order-freedom
